@@ -20,7 +20,7 @@ CHECKS = {
         "that candidate lists are exactly the in-range destinations plus the null link at search_range^2, that subnets partition sources and share no destination, that "
         "solving subnets separately is globally optimal over previous-frame + remembered sources, Oversize iff a subnet exceeds the limit, and that the executable monitor "
         "is sound. Correspondence: every link_strategy of trackpy.link_iter and the three subnet linkers on constructed candidate graphs are checked step by step "
-        "by the monitor (cost of the implementation's assignment = verified optimum; raise iff). Route T: SubnetLinker.do_recur/__init__ and assign_subnet are REGENERATED from /repo's source on every run (tools/py2coq_linker.py -> coq/Gen/linker_core.v) and proved equal to the model's search/solve and subnet-dictionary model for all inputs; the subnet dictionary (Subnets.compute/assign_subnet) is modelled line by line and proved to build exactly the connected components = Link.components; dictionaries observed inside real Linker runs are compared with it.",
+        "by the monitor (cost of the implementation's assignment = verified optimum; raise iff). Route T: SubnetLinker.do_recur/__init__ and assign_subnet are REGENERATED from /repo's source on every run (tools/py2coq_linker.py -> coq/Gen/linker_core.v) and proved equal to the model's search/solve and subnet-dictionary model for all inputs; the subnet dictionary (Subnets.compute/assign_subnet) is modelled line by line and proved to build exactly the connected components = Link.components; dictionaries observed inside real Linker runs are compared with it. Also regenerated (tools/py2coq_linkstep.py -> coq/Gen/linkstep.v): Subnets.__init__/compute, subnet_linker_recursive, Linker.assign_links / apply_links / next_level, with per-subnet optimality and the memory-queue theorem stated about the generated code.",
    note=LINK_NOTE + " The nonrecursive and numba solvers are tied to the verified optimum by the monitor on every generated case, not by their own refinement proof."),
 }
 
@@ -31,7 +31,7 @@ CHECKS.update({
    text="Proof: Properties/C03.v - any two labellings of a step accepted by the sound monitor have identical total cost; optimality is invariant under the order of sources; 'drop' links "
         "only uncontested one-source/one-destination subnets; a per-axis range is exactly a rescaling (in-range test and costs coincide). Correspondence (differential): each movie through 5 "
         "strategies x link_iter/link/link_df_iter, permuted rows, legacy.link_iter (KDTree and hash table), pre-divided coordinates, and 'drop' (new and legacy); every labelling is replayed by "
-        "the monitor; partitions may differ only where the monitor certifies an equal-cost tie. Route T: nonrecursive_link is REGENERATED from /repo's source on every run (tools/py2coq_iterative.py -> coq/Gen/iterative.v) and proved to run the stack machine, hence to return exactly the recursive solver's answer; the generated function is executed next to the real one.",
+        "the monitor; partitions may differ only where the monitor certifies an equal-cost tie. Route T: nonrecursive_link is REGENERATED from /repo's source on every run (tools/py2coq_iterative.py -> coq/Gen/iterative.v) and proved to run the stack machine, hence to return exactly the recursive solver's answer; the generated function is executed next to the real one. Also regenerated (tools/py2coq_numbakernel.py -> coq/Gen/numbakernel.v): _numba_subnet_norecur, proved to run the (true,true) stack machine and to return an optimum; started on the arrays the real numba_link builds.",
    note=LINK_NOTE + " sklearn absent: the new linker's BTree neighbour strategy is not exercised. Solver-specific refinement proofs (nonrecursive, numba) are not done: agreement rests on the monitor.",
    technique="machine-checked proofs over an executable Gallina model + translator from Python source to Coq (regenerated per run, proved equal to the model) + correspondence run"),
  'C04': dict(
@@ -52,7 +52,7 @@ CHECKS.update({
    text="Proof: Properties/C12.v - adaptive step = plain step whenever every subnet fits the adaptive limit; a subnet that fits is never split; every finally solved sub-group only contains "
         "candidate pairs within its reduced range (no longer link can be made) and is solved optimally with that range as the cost of not linking; a raise exhibits a still-oversize "
         "group at a range <= adaptive_stop and a normal return means there was none. Correspondence: link_iter(adaptive_stop, adaptive_step) with lowered MAX_SUB_NET_SIZE_ADAPTIVE on dense "
-        "clusters; the Coq model re-splits oversize groups itself and the monitor decides leaf by leaf admissibility and optimal cost for the leaf's range as null cost, and raise iff the model raises. Route T: adaptive_link_wrap, split_subnet and subnet_linker_drop are REGENERATED from /repo's source on every run (tools/py2coq_adaptive.py -> coq/Gen/adaptive.v); the generated wrapper over the generated splitter is proved to be the generic adaptive recursion, the split dictionary to be the connected components, and the raise-iff / no-long-link / leaf-optimality theorems are proved for the composition; the ladder of reduced ranges actually used is observed in real runs.",
+        "clusters; the Coq model re-splits oversize groups itself and the monitor decides leaf by leaf admissibility and optimal cost for the leaf's range as null cost, and raise iff the model raises. Route T: adaptive_link_wrap, split_subnet and subnet_linker_drop are REGENERATED from /repo's source on every run (tools/py2coq_adaptive.py -> coq/Gen/adaptive.v); the generated wrapper over the generated splitter is proved to be the generic adaptive recursion, the split dictionary to be the connected components, and the raise-iff / no-long-link / leaf-optimality theorems are proved for the composition; the ladder of reduced ranges actually used is observed in real runs. C12_split_recursions_equivalent / C12_generated_is_model: the generated adaptive recursion is equivalent to the model asplit for all inputs (same raise, permuted leaves, equal leaf optima).",
    note=LINK_NOTE + " 'Raise exactly when' is proved relative to sufficient fuel (a return containing OutOfFuel is reported by the monitor as code 10, never observed). "
         "Correspondence restricted to isotropic ranges and binary-fraction steps (exact floats).",
    technique="machine-checked proofs over an executable Gallina model + translator from Python source to Coq (regenerated per run, proved equal to the model) + correspondence run"),
@@ -74,7 +74,7 @@ CHECKS.update({
    text="Proof: Properties/C15.v - packing: unpack(pack p) = p for parameters consistent with their modes and pack(unpack v) = v for every vector, all modes and groupings (polymorphic, unbounded); "
         "gradient: the scalar model functions are REGENERATED from /repo's source on every run (tools/py2coq_fitfun.py -> coq/Gen/fitfun.v) and each d-function is proved to be the derivative of "
         "its function (Coquelicot), plus the per-pixel chain rule, per-cluster sum rule, pack-sum adjoint, and their composition C15_gradient_exact: the assembled jacobian is the derivative of the assembled residual in every component of the packed vector, for all modes and groupings. Correspondence: vect_from_params/vect_to_params exactly on "
-        "integer-valued arrays; jacobian vs central differences of the residual through FitFunctions.",
+        "integer-valued arrays; jacobian vs central differences of the residual through FitFunctions. Also regenerated (tools/py2coq_fitpack.py -> coq/Gen/fitpack.v): vect_from_params, vect_to_params, the mode normalisation of FitFunctions.__init__ and the residual / jacobian closures, proved equal to the models; C15_gen_gradient_exact and both packing round trips restate the property for the generated functions.",
    note=STAT_NOTE + "Axioms (Print Assumptions, calculus theorems only): ClassicalDedekindReals.sig_forall_dec, sig_not_dec, Classical_Prop.classic, FunctionalExtensionality.functional_extensionality_dep "
         "(Coq standard library real numbers). The R-valued assembly model is tied to the code by the jacobian-vs-central-differences monitor; safe_exp's underflow cut is not modelled.",
    technique="translator from Python source to Coq (regenerated per run) + machine-checked derivative proofs (Coquelicot) + correspondence run"),
@@ -102,7 +102,7 @@ CHECKS.update({
    text="Proof (partial): Properties/C19.v - cluster: same id iff connected by a chain of features within separation, sizes = component sizes, ids never reused across frames, monitor sound; "
         "proximity = distance to the nearest other feature; g(r) = corrected pair histogram / (density*N*dr), invariant under permutation and (given boundary) translation; 2-D edge correction: "
         "arclen_2d_bounded = r x measure of the directions inside the box, for every r > 0 and centre in the box; 3-D: consistency identities only. Correspondence: exact models vs trackpy.static on lattice point sets; arclen_2d_bounded / area_3d_bounded against "
-        "independent geometric references. Route T: the seven edge-correction functions are REGENERATED from /repo's source on every run (tools/py2coq_static.py -> coq/Gen/static_geom.v) and proved equal to the models; the 2-D measure theorem is restated for the generated arclen_2d_bounded; 3-D: area_3d_bounded is the true area when only the faces of one axis are within reach (C19_area_3d_single_cap_partial).",
+        "independent geometric references. Route T: the seven edge-correction functions are REGENERATED from /repo's source on every run (tools/py2coq_static.py -> coq/Gen/static_geom.v) and proved equal to the models; the 2-D measure theorem is restated for the generated arclen_2d_bounded; 3-D: area_3d_bounded is the true area when only the faces of one axis are within reach (C19_area_3d_single_cap_partial). 3-D: the edge correction is also proved for adjacent faces with disjoint or overlapping caps and parallel-edge configurations (edge term = lune area), and the slice-integral identity holds in every regime; the corner term stays with the numerical reference.",
    note=STAT_NOTE + "The 3-D closed forms as areas are covered numerically only. Geometry theorems depend on the Coq standard library real-number axioms "
         "(sig_forall_dec, sig_not_dec, classic, functional_extensionality_dep).",
    technique="machine-checked proofs (Coq reals / Coquelicot) + translator from Python source to Coq (regenerated per run) + correspondence run"),
@@ -128,7 +128,7 @@ CHECKS.update({
         "(position, mass, size(s), signal, raw_mass) whenever every evaluated window has non-zero mass; the reported position is the centroid of the very neighbourhood on which mass, size, "
         "signal and raw_mass were measured, also when the iteration limit stops right after a shift; that neighbourhood is the full ellipse and lies wholly inside the image (shift-and-clip "
         "invariant); zero mass separates the engines. Correspondence: exact rational models vs refine_com_arr with engine='python' and engine='numba' (interpreted) on integer images, 2-D/3-D, "
-        "iso/anisotropic, iteration limits 1-20, starts far from the blob and at the clipping bounds; masses exact, positions/sizes within 2^-40 relative. Route T also for the pure-python engine and the dispatch: _refine, refine_com_arr and refine_com are REGENERATED (tools/py2coq_refine.py -> coq/Gen/refine.v) and proved equal to the reference model and to the kernel runs.",
+        "iso/anisotropic, iteration limits 1-20, starts far from the blob and at the clipping bounds; masses exact, positions/sizes within 2^-40 relative. Route T also for the pure-python engine and the dispatch: _refine, refine_com_arr and refine_com are REGENERATED (tools/py2coq_refine.py -> coq/Gen/refine.v) and proved equal to the reference model and to the kernel runs. C07_generated_engines_agree: the generated python and numba paths of refine_com_arr / refine_com return literally the same rows.",
    note=STAT_NOTE + "The four numba kernels are REGENERATED from /repo's source on every run (tools/py2coq_com.py -> coq/Gen/com_kernels.v, fail-closed translator, trusted) and proved equal, "
         "cell for cell, to the hand-written kernel model (C07_generated_*); the python engine (_refine) and masks.py are hand-modelled and tied by correspondence. ecc is sliced out of the translation "
         "and compared engine-vs-engine only. numba is absent: 'compiled' execution is not exercised.",
@@ -150,7 +150,7 @@ CHECKS.update({
         "a blank canvas moves every row's position by exactly that offset and changes no other column (maxima, refinement and their composition; the harness' embedding satisfies the relational "
         "premises); maxima, refinement and the composed pipeline commute with any axis permutation (positions and per-axis sizes permuted, everything else identical); batch is the concatenation of locate per frame tagged with frame_no (or the position) and is independent of the completion "
         "order of Pool.imap workers; monitors sound; ecc's numerator provably differs under transposition (F13 witness). Correspondence: images x offsets x axis orders x locate parameters "
-        "(incl. canvases > 1 Mpx with a ladder of dim blobs at the percentile threshold), every reported column compared; batch with 1, 2 and more processes and shuffled frame orders. The whole integer pipeline INCLUDING the tail is proved equivariant under translation and any axis permutation under a boolean no-tie hypothesis (refuted without it: the open findings are exactly ties); batch's chunked pool is proved independent of workers/chunking with the frame's own frame_no as tag.",
+        "(incl. canvases > 1 Mpx with a ladder of dim blobs at the percentile threshold), every reported column compared; batch with 1, 2 and more processes and shuffled frame orders. The whole integer pipeline INCLUDING the tail is proved equivariant under translation and any axis permutation under a boolean no-tie hypothesis (refuted without it: the open findings are exactly ties); batch's chunked pool is proved independent of workers/chunking with the frame's own frame_no as tag. Route T for the whole locate: the head is regenerated (tools/py2coq_locatehead.py -> coq/Gen/locatehead.v) and head + Gen/find + Gen/refine + Gen/tail is proved to agree with the composed model (integer images, preprocess=False, python engine); the generated whole locate is executed next to the real one.",
    note=STAT_NOTE + "Bandpass under shift, the where_close dedupe, minmass/maxsize/topn, ep, float images, refinement under transposition and real Pool workers are covered by correspondence only. "
         "Open known findings (printed as KNOWN-FINDING, exit 0): F13 ecc under transposition; F15/F17 exact mass-and-coordinate-sum ties in where_close under transposition / translation."),
 })
@@ -161,7 +161,7 @@ CHECKS.update({
         "than separation to a point the frame already holds (masking argument; the fixed bg_radius provably covers it); candidates are within range of a searched position, pairwise "
         "separated, outside the margin with finite mass >= minmass; the image search is an admissible oracle; by induction over frames (with memory) every output frame satisfies the safety "
         "clauses; monitor sound; the pre-fix bg_radius (F12) and edge test (F16) are refuted on witnesses. Correspondence: get_relocate_candidates driven directly and compared as a set with "
-        "masses and ordering; find_link on blob movies and noise textures checked by the monitor. Completeness half proved for the model (C14_movie_complete, C14_equals_detect_then_link) under boolean hypotheses evaluated in Coq on every generated movie. Route T: FindLinker.percentile_threshold / get_relocate_candidates / relocate are REGENERATED from /repo's source on every run (tools/py2coq_findlink.py -> coq/Gen/findlink.v) and proved to be the model's relocation oracle; the safety theorems are restated for it.",
+        "masses and ordering; find_link on blob movies and noise textures checked by the monitor. Completeness half proved for the model (C14_movie_complete, C14_equals_detect_then_link) under boolean hypotheses evaluated in Coq on every generated movie. Route T: FindLinker.percentile_threshold / get_relocate_candidates / relocate are REGENERATED from /repo's source on every run (tools/py2coq_findlink.py -> coq/Gen/findlink.v) and proved to be the model's relocation oracle; the safety theorems are restated for it. Also regenerated (tools/py2coq_findstep.py -> coq/Gen/findstep.v): FindLinker.__init__ / next_level / assign_links, the lost-feature methods of Subnets and find_link_iter; the code's step is modelled as it is (claimed-only, its own grouping) and the safety theorems are restated end to end for the generated driver.",
    note=STAT_NOTE + "The completeness half is proved for the MODEL under an oracle hypothesis (the image search returns exactly the unknown blobs in range) that is tested, not proved, for the real "
         "image search on blob images. Isotropic parameters, integer pixel coordinates, no predictor; assign_links / next_level and the lost-feature methods of Subnets are tied only through the "
         "monitor and the correspondence runs.",
